@@ -151,12 +151,15 @@ def jobs(tier):
             for n in range(0, 6):
                 for o1 in range(0, 4):
                     J.append({"module": "c16", "fn": "h_groupby", "part": {"N": 5, "n": n, "L": 7, "G": 3, "o0": 0, "key": key, "fl": ("acls" if n % 2 else "agen")}, "timeout": T})
+    # key callables that are not coroutine functions but return awaitables
+    for key in ("obj", "partial", "defaw"):
+        J.append({"module": "c16", "fn": "h_groupby", "part": {"N": 3, "n": 3, "L": 4, "G": 2, "key": key, "fl": "agen"}, "timeout": T})
     return J
 
 
 LEVEL = "other"
 BOUNDS = {
-    "quick": "(plus sequences of 3 plain values from {None, 0, 1}) item sequences of length 0..4 with unbounded integer keys (only equality matters: every partition into runs is a path), key absent / def / async def, every operation sequence of length 5 over {advance groupby, advance group handle 1, advance group handle 2}",
+    "quick": "(plus sequences of 3 plain values from {None, 0, 1}) item sequences of length 0..4 with unbounded integer keys (only equality matters: every partition into runs is a path), key absent / def / async def (and, for 3 items, callable object, partial(async def), def returning a ready awaitable), every operation sequence of length 5 over {advance groupby, advance group handle 1, advance group handle 2}",
     "thorough": "length 0..5, operation sequences of length 7 starting with an advance, over {advance groupby, advance group handle 1..3}",
 }
 OUTSIDE = ["sequences longer than the bound, more group handles than G", "keys whose equality is not reflexive", "closing group handles (C04)"]
